@@ -70,6 +70,9 @@ pub fn to_nfa<T>(re: &Re) -> NFA<T> {
                 NFA::predicate(move |x| x == b)
             })),
         },
+        // the ready-made atoms of the library where the expression happens to be one
+        Re::Class(set) if is_digits(set) => NFA::digit(),
+        Re::Plus(inner) if matches!(&**inner, Re::Class(set) if is_digits(set)) => NFA::number(),
         Re::Class(set) => {
             let mut member = [false; 256];
             for b in set {
@@ -98,6 +101,13 @@ pub fn to_nfa<T>(re: &Re) -> NFA<T> {
         Re::Empty => NFA::empty(),
         Re::Nothing => NFA::nothing(),
     }
+}
+
+fn is_digits(set: &[u8]) -> bool {
+    let mut sorted = set.to_vec();
+    sorted.sort_unstable();
+    sorted.dedup();
+    sorted == (b'0'..=b'9').collect::<Vec<u8>>()
 }
 
 fn hex(bytes: &[u8]) -> String {
@@ -391,7 +401,14 @@ fn check_expr(
             parts
                 .iter()
                 .zip(tags)
-                .map(|(part, tag)| to_nfa::<usize>(part).tag_stop_state(*tag)),
+                .map(|(part, tag)| {
+                    if (part.size() + *tag) % 3 == 0 {
+                        // through the tag-mapping combinator: same language, mapped tags
+                        to_nfa::<u64>(part).tag_stop_state(*tag as u64 + 1000).tags_map(|t| (t - 1000) as usize)
+                    } else {
+                        to_nfa::<usize>(part).tag_stop_state(*tag)
+                    }
+                }),
         ),
         None => to_nfa(re),
     };
@@ -851,7 +868,8 @@ fn atom(rng: &mut Rng, alphabet: &[u8]) -> Re {
         3 => Re::Class(Vec::new()),
         4 => Re::Seq(Vec::new()),
         5 => Re::Alt(Vec::new()),
-        6..=20 => Re::Lit((0..rng.range(1, 3)).map(|_| *rng.pick(alphabet)).collect()),
+        6 => Re::bytes((b'0'..=b'9').collect::<Vec<u8>>()),
+        7..=20 => Re::Lit((0..rng.range(1, 3)).map(|_| *rng.pick(alphabet)).collect()),
         21..=30 => Re::Lit(vec![*rng.pick(alphabet)]),
         _ => {
             let mut set: Vec<u8> = alphabet.iter().copied().filter(|_| rng.bool()).collect();
